@@ -5,7 +5,7 @@ recognised forms stops the translation."""
 import ast, os, sys
 HERE = os.path.dirname(os.path.abspath(__file__))
 sys.path.insert(0, HERE)
-from py2mini import Untranslatable, cstr
+from py2mini import Untranslatable, cstr, no_decorators
 
 REPO = os.environ.get("VERIF_REPO", "/repo")
 FILE = "pyshacl/rdfutil/closure.py"
@@ -139,6 +139,8 @@ def main():
     others = [n for n in tree.body if not isinstance(n, (ast.FunctionDef, ast.Import, ast.ImportFrom)) and not (isinstance(n, ast.Expr) and isinstance(n.value, ast.Constant))]
     if sorted(fns) != ["transitive_objects", "transitive_subjects"] or others:
         raise Untranslatable("%s: expected exactly the functions transitive_subjects and transitive_objects at module level" % FILE)
+    for name in ("transitive_subjects", "transitive_objects"):
+        no_decorators(fns[name], "%s: %s" % (FILE, name))
     sites, recursive = call_sites()
     out = ["(* GENERATED by translator/t4.py from %s and the call sites under pyshacl/ - do not edit *)" % FILE,
            "From Coq Require Import List String Bool.", "From Verif Require Import Closure.Worklist.", "Import ListNotations.", "Open Scope string_scope.", ""]
